@@ -243,7 +243,10 @@ def _work(chunk):
     out = []
     stats = {'worlds': 0, 'requests': 0, 'skipped': 0}
     for impl, cfg, cases in chunk:
-        run_cases(impl, cfg, cases, out, stats)
+        try:
+            run_cases(impl, cfg, cases, out, stats)
+        except report.Livelock as e:
+            out.append(report.livelock_violation(impl, e, {'impl': impl, 'cfg': cfg, 'case': list(cases[0])}))
     return [v.to_json() for v in out[:300]], stats, len(out)
 
 
